@@ -137,6 +137,20 @@ pub fn run(o: &Opts) -> i32 {
         check_pair(l, &a, &b, 32, rng);
         check_pair(l, &b, &a, 32, rng);
     }));
+    // chunk chains around the 7-gram threshold: long common subsequences with / without a common 7-gram
+    streams.push(Stream::new("w4-chunk-chains", o.n(40_000, 2_000_000), |_i, rng: &mut Rng, l: &mut Local| {
+        let (x, y) = hashes::gen_chain_pair(rng, 32);
+        let log = hashes::gen_log(rng);
+        let mut a = HV { log, bh1: x.clone(), bh2: y.clone() };
+        a.bh2.truncate(32);
+        let (b, s2) = match rng.below(3) {
+            0 => (HV { log, bh1: y.clone(), bh2: { let mut t = x.clone(); t.truncate(32); t } }, 32),
+            1 => (HV { log: (log + 1).min(30), bh1: x.clone(), bh2: vec![] }, 32), // a.bh2 (=y) against b.bh1 (=x)
+            _ => (HV { log, bh1: y.clone(), bh2: vec![] }, 32),
+        };
+        check_pair(l, &a, &b, s2, rng);
+        check_pair(l, &b, &a, s2, rng);
+    }));
     streams.push(Stream::new("w4-long", o.n(100_000, 4_000_000), |_i, rng: &mut Rng, l: &mut Local| {
         let a = hashes::gen_hv(rng, 64, false);
         let b = hashes::derive(rng, &a, 64);
@@ -167,7 +181,7 @@ pub fn run(o: &Opts) -> i32 {
         o,
         rr,
         Report {
-            rule: "pairs from W4 (unrelated, k edits, rotation, run insertion, crossing a.bh2~b.bh1 with doubled block size, all 31x31 block-size relations) over W3 block hashes, both orders; every comparison entry point (string function, hash-to-hash, reusable target built by From and by init_from on a dirty target, short/long/dual operands, the specialised compare_* forms inside their preconditions) is compared with the fuzzy_compare port O5 (own normalization, naive 7-gram test, DP edit distance, u64 arithmetic). evaluations = monitored comparison calls. Non-trivial = score decided by the edit-distance formula (both strings >= 7 with a common 7-gram); distinct by pair.".into(),
+            rule: "pairs from W4 (unrelated, k edits, rotation, run insertion, crossing a.bh2~b.bh1 with doubled block size, chunk chains of exactly 5/6/7/8-symbol chunks with single-symbol separators on either side, all 31x31 block-size relations) over W3 block hashes, both orders; every comparison entry point (string function, hash-to-hash, reusable target built by From and by init_from on a dirty target, short/long/dual operands, the specialised compare_* forms inside their preconditions) is compared with the fuzzy_compare port O5 (own normalization, naive 7-gram test, DP edit distance, u64 arithmetic). evaluations = monitored comparison calls. Non-trivial = score decided by the edit-distance formula (both strings >= 7 with a common 7-gram); distinct by pair.".into(),
             assumptions: vec!["oracle O5 is a faithful port of fuzzy_compare/score_strings of libfuzzy 2.14.1".into()],
             exhaustive: false,
             min_nontrivial: 2000 * o.scale_pct / 100,
